@@ -169,8 +169,9 @@ def equalBounds (step as : Int) (act : Fib Int π) : List Int :=
 def unequalLoop (sizes : List Int) (as : Int) : List ((Int × π) × Nat) → Nat → Nat → List Int
   | [], _, _ => []
   | ei :: rest, j, base =>
-    if j = sizes.length then []                                                      -- break
-    else if ei.2 = 0 then as :: unequalLoop sizes as rest j base
+    -- (the first boundary is recorded before the sizes are tested: /repo COMMIT:C08-01)
+    if ei.2 = 0 then as :: unequalLoop sizes as rest j base
+    else if j = sizes.length then []                                                 -- break
     else if (ei.2 : Int) - (base : Int) = sizes.getD j 0 then
       ei.1.1 :: unequalLoop sizes as rest (j + 1) ei.2
     else unequalLoop sizes as rest j base
